@@ -75,6 +75,8 @@ def check_partition(text):
             return "directive %r was dropped silently" % gap[:40], len(toks)
         if text[t.lexpos:t.lexpos + len(t.value)] != t.value:
             return "token text %r is not the input text at its position" % t.value[:40], len(toks)
+        if t.type == "COMMENT_MULTILINE" and t.value.find("*/", 2) != len(t.value.rstrip("\n")) - 2:
+            return "block comment token %r does not end at the first '*/'" % t.value[:60], len(toks)
         if t.lineno != 1 + text[:t.lexpos].count("\n"):
             return "token %r at offset %d has lineno %d, expected %d" % (t.value[:20], t.lexpos, t.lineno, 1 + text[:t.lexpos].count("\n")), len(toks)
         pos = t.lexpos + len(t.value)
